@@ -150,3 +150,13 @@ Definition wit_wire (curves shares : list N) (psk : N) : wire_view :=
 Definition wit_hello (share selgroup : N) : hello_msg := mkHello V12 V13 0 sid0 4865 0 share selgroup false None [].
 Definition wit_flight (hrr : option N) (share : N) : flight :=
   mkFlight (match hrr with Some g => Some (wit_hello 0 g) | None => None end) (wit_hello share 0) [] None None true.
+
+(* ---- application data: what UConn.Write reports (u_conn.go:478-511) ----
+   vers = negotiated version, cbc = the outgoing cipher is a cipher.BlockMode, len = len(b); [rec k] = what
+   writeRecordLocked reports for a k-byte payload when it succeeds (it reports k). With the 1/n-1 split (BEAST
+   countermeasure, TLS <= 1.0 with a CBC suite) the first byte goes out in its own record and is accounted for in m. *)
+Definition uconn_write (vers : N) (cbc : bool) (len : N) : N :=
+  if (1 <? len) && (vers <=? V10) && cbc then
+    let m := 1 in            (* n, err := writeRecordLocked(b[:1]); m, b = 1, b[1:] *)
+    (len - 1) + m            (* n, err := writeRecordLocked(b); return n + m *)
+  else len.
